@@ -531,9 +531,57 @@ theorem amessage_null_spec (m : Msg) (cargs : List CArg) (hwf : m.WF) (hd : Deno
 theorem v2args_zero (narrow : UInt64 → UInt32) (ts : Bytes) (va : List VaArg) :
     v2args narrow 0 ts va = some [] := by simp [v2args]
 
-theorem v2args_promote (narrow : UInt64 → UInt32) (widen : UInt32 → UInt64) (tags : Bytes) :
+/-- the 32-bit values that sit under an `'f'` tag: the only arguments of a call site that
+    undergo the float → double promotion (an `int`/`char`/rgb value is passed as `int`) -/
+def fArgs : Bytes → List CArg → List UInt32
+  | [], _ => []
+  | t :: ts, args =>
+    if !hasReserved t then fArgs ts args
+    else
+      match args with
+      | [] => []
+      | a :: as =>
+        (match a with
+          | .w32 v => if t = 102 then [v] else []
+          | _ => []) ++ fArgs ts as
+
+theorem fArgs_skip {t : UInt8} (ts : Bytes) (args : List CArg) (hr : hasReserved t = false) :
+    fArgs (t :: ts) args = fArgs ts args := by simp [fArgs, hr]
+
+theorem fArgs_cons {t : UInt8} (ts : Bytes) (a : CArg) (as : List CArg) (hr : hasReserved t = true) :
+    fArgs (t :: ts) (a :: as) =
+      (match a with
+        | .w32 v => if t = 102 then [v] else []
+        | _ => []) ++ fArgs ts as := by simp [fArgs, hr]
+
+/-- every `'f'`-tagged value is one of the 32-bit arguments -/
+theorem mem_fArgs (tags : Bytes) : ∀ (cargs : List CArg) (v : UInt32), v ∈ fArgs tags cargs →
+    CArg.w32 v ∈ cargs := by
+  induction tags with
+  | nil => intro cargs v h; simp [fArgs] at h
+  | cons t ts ih =>
+    intro cargs v h
+    cases hr : hasReserved t with
+    | false => rw [fArgs_skip ts cargs hr] at h; exact ih cargs v h
+    | true =>
+      cases cargs with
+      | nil => simp [fArgs, hr] at h
+      | cons a as =>
+        rw [fArgs_cons ts a as hr, List.mem_append] at h
+        rcases h with h | h
+        · cases a with
+          | w32 x =>
+            by_cases ht : t = 102
+            · simp [ht] at h; subst h; exact List.mem_cons_self
+            · simp [ht] at h
+          | _ => simp at h
+        · exact List.mem_cons_of_mem _ (ih as v h)
+
+/-- `rtosc_v2args` gives back the argument array of the call site; the float conversions are
+    only required to round-trip on the values under an `'f'` tag. -/
+theorem v2args_promote_f (narrow : UInt64 → UInt32) (widen : UInt32 → UInt64) (tags : Bytes) :
     ∀ (cargs : List CArg) (args : List Arg), Matches tags args → Denote cargs args →
-      (∀ v, CArg.w32 v ∈ cargs → narrow (widen v) = v) →
+      (∀ v ∈ fArgs tags cargs, narrow (widen v) = v) →
       v2args narrow (nreserved tags) tags (promote widen tags cargs) = some cargs := by
   induction tags with
   | nil =>
@@ -546,42 +594,60 @@ theorem v2args_promote (narrow : UInt64 → UInt32) (widen : UInt32 → UInt64) 
     · obtain ⟨a, as, rfl, hak, hm'⟩ := matches_take hk hm
       obtain ⟨v, rfl⟩ := kind_w32_inv hak
       obtain ⟨c, cs, rfl, hc, hd'⟩ := denote_cons hd
-      have hf' : ∀ v, CArg.w32 v ∈ cs → narrow (widen v) = v := fun v hv => hf v (List.mem_cons_of_mem _ hv)
-      have hv := hf v (by rw [abs_w32 hc]; exact List.mem_cons_self)
-      rw [nreserved_cons_true hr, abs_w32 hc]
-      rcases ht with rfl | rfl | rfl | rfl <;>
+      rw [abs_w32 hc] at hf ⊢
+      rw [fArgs_cons ts _ cs hr] at hf
+      have hf' : ∀ v ∈ fArgs ts cs, narrow (widen v) = v :=
+        fun v hv => hf v (List.mem_append_right _ hv)
+      rw [nreserved_cons_true hr]
+      rcases ht with rfl | rfl | rfl | rfl
+      · simp [promote, hr, v2args, ih cs as hm' hd' hf']
+      · have hv : narrow (widen v) = v := hf v (by simp)
         simp [promote, hr, v2args, ih cs as hm' hd' hf', hv]
+      · simp [promote, hr, v2args, ih cs as hm' hd' hf']
+      · simp [promote, hr, v2args, ih cs as hm' hd' hf']
     · obtain ⟨a, as, rfl, hak, hm'⟩ := matches_take hk hm
       obtain ⟨v, rfl⟩ := kind_w64_inv hak
       obtain ⟨c, cs, rfl, hc, hd'⟩ := denote_cons hd
-      have hf' : ∀ v, CArg.w32 v ∈ cs → narrow (widen v) = v := fun v hv => hf v (List.mem_cons_of_mem _ hv)
-      rw [nreserved_cons_true hr, abs_w64 hc]
+      rw [abs_w64 hc] at hf ⊢
+      rw [fArgs_cons ts _ cs hr] at hf
+      have hf' : ∀ v ∈ fArgs ts cs, narrow (widen v) = v :=
+        fun v hv => hf v (List.mem_append_right _ hv)
+      rw [nreserved_cons_true hr]
       rcases ht with rfl | rfl | rfl <;>
         simp [promote, hr, v2args, ih cs as hm' hd' hf']
     · obtain ⟨a, as, rfl, hak, hm'⟩ := matches_take hk hm
       obtain ⟨x, y, z, w, rfl⟩ := kind_midi_inv hak
       obtain ⟨c, cs, rfl, hc, hd'⟩ := denote_cons hd
-      have hf' : ∀ v, CArg.w32 v ∈ cs → narrow (widen v) = v := fun v hv => hf v (List.mem_cons_of_mem _ hv)
-      rw [nreserved_cons_true hr, abs_midi hc]
+      rw [abs_midi hc] at hf ⊢
+      rw [fArgs_cons ts _ cs hr] at hf
+      have hf' : ∀ v ∈ fArgs ts cs, narrow (widen v) = v :=
+        fun v hv => hf v (List.mem_append_right _ hv)
+      rw [nreserved_cons_true hr]
       subst ht
       simp [promote, hr, v2args, ih cs as hm' hd' hf']
     · obtain ⟨a, as, rfl, hak, hm'⟩ := matches_take hk hm
       obtain ⟨s, rfl⟩ := kind_str_inv hak
       obtain ⟨c, cs, rfl, hc, hd'⟩ := denote_cons hd
-      have hf' : ∀ v, CArg.w32 v ∈ cs → narrow (widen v) = v := fun v hv => hf v (List.mem_cons_of_mem _ hv)
-      rw [nreserved_cons_true hr, abs_str hc]
+      rw [abs_str hc] at hf ⊢
+      rw [fArgs_cons ts _ cs hr] at hf
+      have hf' : ∀ v ∈ fArgs ts cs, narrow (widen v) = v :=
+        fun v hv => hf v (List.mem_append_right _ hv)
+      rw [nreserved_cons_true hr]
       rcases ht with rfl | rfl <;>
         simp [promote, hr, v2args, ih cs as hm' hd' hf']
     · obtain ⟨a, as, rfl, hak, hm'⟩ := matches_take hk hm
       obtain ⟨dd, rfl⟩ := kind_blob_inv hak
       obtain ⟨c, cs, rfl, hc, hd'⟩ := denote_cons hd
       obtain ⟨len, data, rfl, _, _⟩ := abs_blob hc
-      have hf' : ∀ v, CArg.w32 v ∈ cs → narrow (widen v) = v := fun v hv => hf v (List.mem_cons_of_mem _ hv)
+      rw [fArgs_cons ts _ cs hr] at hf
+      have hf' : ∀ v ∈ fArgs ts cs, narrow (widen v) = v :=
+        fun v hv => hf v (List.mem_append_right _ hv)
       rw [nreserved_cons_true hr]
       subst ht
       simp [promote, hr, v2args, ih cs as hm' hd' hf']
     · rw [nreserved_cons_false hr]
       have hm' := (matches_skip hk).mp hm
+      rw [fArgs_skip ts cargs hr] at hf
       have := ih cargs args hm' hd hf
       have hp : promote widen (t :: ts) cargs = promote widen ts cargs := by simp [promote, hr]
       rw [hp]
@@ -594,27 +660,43 @@ theorem v2args_promote (narrow : UInt64 → UInt32) (widen : UInt32 → UInt64) 
         simp only [v2args, h1, h2, h3, h4, h5, h6, h7, h8, h9, h10, h11, or_self, if_false]
         exact this
 
+/-- the older, stronger-hypothesis form (every 32-bit argument round-trips); kept for C02 -/
+theorem v2args_promote (narrow : UInt64 → UInt32) (widen : UInt32 → UInt64) (tags : Bytes)
+    (cargs : List CArg) (args : List Arg) (hm : Matches tags args) (hd : Denote cargs args)
+    (hf : ∀ v, CArg.w32 v ∈ cargs → narrow (widen v) = v) :
+    v2args narrow (nreserved tags) tags (promote widen tags cargs) = some cargs :=
+  v2args_promote_f narrow widen tags cargs args hm hd (fun v hv => hf v (mem_fArgs tags cargs v hv))
+
+/-- no payload tag: the call site passes no argument -/
+theorem cargs_nil_of_nreserved_zero (tags : Bytes) : ∀ (cargs : List CArg) (args : List Arg),
+    Matches tags args → Denote cargs args → nreserved tags = 0 → cargs = [] := by
+  induction tags with
+  | nil => intro cargs args hm hd _; rw [matches_nil hm] at hd; exact denote_nil hd
+  | cons t ts ih =>
+    intro cargs args hm hd h0
+    rcases kind_cases t with ⟨hk, hr, _⟩ | ⟨hk, hr, _⟩ | ⟨hk, hr, _⟩ | ⟨hk, hr, _⟩ | ⟨hk, hr, _⟩ |
+      ⟨hk, hr, _⟩
+    all_goals first
+      | (rw [nreserved_cons_true hr] at h0; omega)
+      | (rw [nreserved_cons_false hr] at h0
+         exact ih cargs args ((matches_skip hk).mp hm) hd h0)
+
+theorem vmessage_promote_f (narrow : UInt64 → UInt32) (widen : UInt32 → UInt64) (buffer : Option Bytes)
+    (addr tags : Bytes) (cargs : List CArg) (args : List Arg) (hm : Matches tags args)
+    (hd : Denote cargs args) (hf : ∀ v ∈ fArgs tags cargs, narrow (widen v) = v) :
+    vmessage narrow buffer addr tags (promote widen tags cargs) = amessage buffer addr tags cargs := by
+  simp only [vmessage]
+  rw [v2args_promote_f narrow widen tags cargs args hm hd hf]
+  split
+  · next h0 => rw [cargs_nil_of_nreserved_zero tags cargs args hm hd h0]
+  · rfl
+
 theorem vmessage_promote (narrow : UInt64 → UInt32) (widen : UInt32 → UInt64) (buffer : Option Bytes)
     (addr tags : Bytes) (cargs : List CArg) (args : List Arg) (hm : Matches tags args)
     (hd : Denote cargs args) (hf : ∀ v, CArg.w32 v ∈ cargs → narrow (widen v) = v) :
-    vmessage narrow buffer addr tags (promote widen tags cargs) = amessage buffer addr tags cargs := by
-  simp only [vmessage]
-  rw [v2args_promote narrow widen tags cargs args hm hd hf]
-  split
-  · next h0 =>
-    -- no payload tag: no argument
-    have : cargs = [] := by
-      induction tags generalizing cargs args with
-      | nil => rw [matches_nil hm] at hd; exact denote_nil hd
-      | cons t ts ih =>
-        rcases kind_cases t with ⟨hk, hr, _⟩ | ⟨hk, hr, _⟩ | ⟨hk, hr, _⟩ | ⟨hk, hr, _⟩ | ⟨hk, hr, _⟩ |
-          ⟨hk, hr, _⟩
-        all_goals first
-          | (rw [nreserved_cons_true hr] at h0; omega)
-          | (rw [nreserved_cons_false hr] at h0
-             exact ih cargs args ((matches_skip hk).mp hm) hd hf h0)
-    rw [this]
-  · rfl
+    vmessage narrow buffer addr tags (promote widen tags cargs) = amessage buffer addr tags cargs :=
+  vmessage_promote_f narrow widen buffer addr tags cargs args hm hd
+    (fun v hv => hf v (mem_fArgs tags cargs v hv))
 
 theorem avCollect_listOf (tags : Bytes) : ∀ (cargs : List CArg) (args : List Arg),
     Matches tags args → Denote cargs args → (∀ t ∈ tags, t ≠ 45 ∧ t ≠ 97) →
